@@ -351,9 +351,36 @@ def joins_case(case):
     return None
 
 
+def reuse_real_case(case):
+    """HISTORY on one REAL `Local` runner object: commands with different exit statuses in a row, with and without a pty;
+    each run's outcome follows ITS OWN exit status (return iff 0 or warn; UnexpectedExit carrying that status otherwise)"""
+    from invoke import Context, Config, Local
+    from invoke.exceptions import UnexpectedExit
+    r = Local(Context(Config()))
+    for i, (status, pty, warn) in enumerate(case["runs"]):
+        try:
+            res = r.run("exit %d" % status, pty=pty, warn=warn, hide=True, in_stream=False)
+            got = ("return", res.exited)
+        except UnexpectedExit as e:
+            got = ("UnexpectedExit", e.result.exited)
+        want = ("return", status) if (status == 0 or warn) else ("UnexpectedExit", status)
+        if got != want:
+            return "run %d of one real Local object (exit %d, pty=%s, warn=%s) got %r; the property demands %r" % (
+                i, status, pty, warn, got, want)
+    return None
+
+
 def replay(case):
     import props._c05util as u
     k = case["kind"]
+    if k == "reuse_real":
+        if any(p for _, p, _ in case["runs"]) and not u.pty_available():
+            return True, "skipped: no pty can be allocated here"
+        try:
+            why = common.with_timeout(reuse_real_case, 60, case)
+        except common.Hang:
+            why = "[hang] the runs did not return"
+        return why is None, why or "ok"
     if k == "joins":
         try:
             why = common.with_timeout(joins_case, 60, case)
@@ -626,6 +653,15 @@ def run(ctx):
                 ok, why = replay(c)
                 if not ok:
                     out.fail(c, why)
+    # one REAL Local object, several commands with different statuses, pty and plain mixed
+    for _ in range(ctx.n(6, 40)):
+        runs = [[rng.choice([0, 0, 1, 3, 7]), rng.random() < 0.6, rng.random() < 0.3] for _ in range(rng.randint(2, 4))]
+        c = {"kind": "reuse_real", "runs": runs}
+        out.case(c, True)
+        out.hist["reuse-real-local"] += 1
+        ok, why = replay(c)
+        if not ok:
+            out.fail(c, why)
     # several joins of ONE promise on the gate scheduler, against the model's `rejoin` (Props/C05 second_join_same_decision):
     # random schedules (timer expiry, kills, exits, worker faults, interrupts) through the first join, then one or two
     # further joins with timer steps in between; model and implementation must agree on EVERY join's outcome, and - the
